@@ -687,7 +687,9 @@ impl Drv {
             .map(|k| {
                 let mut c: Vec<u8> = (0..len + SLACK).map(|j| (0x10 * (k + 1) + j + 1) as u8).collect();
                 if self == Drv::P9 {
-                    let tags: [&[u8]; 3] = [b"abc", b"VWXYZ", b"mnop"];
+                    // every tag is valid UTF-8, two contain a two-byte character: bytes mixed from two
+                    // generations can be invalid UTF-8, which must lead to a retry, never to an error
+                    let tags: [&[u8]; 3] = [&[0x61, 0xc3, 0xa9], b"VWXYZ", &[0xc3, 0xa9, 0x6e, 0x6f]];
                     c[0] = tags[k].len() as u8;
                     c[1] = 0;
                     for j in 2..c.len() {
@@ -892,7 +894,7 @@ fn run_one(d: Drv, tk: Tk, len: usize, at: &[usize], gen0: u64) -> RunOut {
     }
 }
 
-fn consistent_case(ctx: &Ctx, idx: usize, id: String) -> Case {
+pub fn consistent_case(ctx: &Ctx, idx: usize, id: String) -> Case {
     let d = Drv::ALL[idx % 5];
     let tk = Tk::ALL[(idx / 5) % 3];
     let variant = idx / 15; // window length / start generation variant
